@@ -160,6 +160,18 @@ theorem GInv.set {t : Txn} {s : Store} (wf : TxnWF t) (h : GInv t s) {m : Mut} (
           have hrP := grS ep (not_R_of_noRec hn) newR
           exact absurd ⟨hcP, hrP⟩ (h.not_C_R_prim wf)
         | push l n hl hts => exact Or.inl ⟨_, rfl, hts⟩
+        | foreign l' d' hnl hts hd =>
+          rcases base with hl | hc
+          · exact absurd hl hnl
+          · exact Or.inr hc
+        | foreignRb fts h1 h2 =>
+          rcases base with hl | hc
+          · exact (mono.t (Or.inl hl)).elim Or.inl (fun x => x.elim Or.inr (fun hr => by
+              have hrP := grS ep (fun hr0 => by
+                obtain ⟨l, hl1, hl2⟩ := hl
+                exact absurd hr0 (not_R_of_noRec ((hkm.lk l hl1 hl2).2.2))) hr
+              exact absurd ⟨hcP, hrP⟩ (h.not_C_R_prim wf)))
+          · exact Or.inr (mono.c hc)
       · simp only [e, if_false]; exact base
 
 end NoKV.Client
